@@ -118,9 +118,11 @@ pub open spec fn xsame(b: int, nb: int, sig: int, e: int, s1: int, e1: int) -> b
 /// documented normal form of Repr: a non-zero significand is not divisible by the base
 pub open spec fn sig_normal(b: int, s: int) -> bool { s == 0 || s % b != 0 }
 pub open spec fn repr_inf<const B: Word>(r: Repr<B>) -> bool { r.significand.v() == 0 && r.exponent != 0 }
-/// what `repr_round` needs of its operand: the rounded exponent must be representable
+/// what `repr_round` (and the `Repr::new` in front of it) needs of its operand: the rounded exponent must be
+/// representable, and -- resource limit: exponent overflow is a documented panic (C16), not modelled -- the digit
+/// position of the split must have a bit position within usize (`pos_room`, lib/round_float_repr.rs)
 pub open spec fn exp_in_range(b: int, s1: int, e1: int) -> bool {
-    e1 + ndigits(b, s1) <= isize::MAX && ndigits(b, s1) <= isize::MAX
+    e1 + ndigits(b, s1) <= isize::MAX && ndigits(b, s1) <= isize::MAX && pos_room(ndigits(b, s1) as int)
 }
 
 /// re-basing lemma for the shortcut "NewB is a power of B": (s1, e1) in base nb = b^k denotes S * nb^E where
